@@ -285,8 +285,11 @@ def run(ctx):
     ref_names = {k if isinstance(k, str) else k[0] for k in W.STATES} | set(W.SPECIAL)
     impl_names = {short(s) for s in tm.states}
     for nme in sorted(ref_names | impl_names):
-        r.check("C02.2", nme in ref_names and nme in impl_names, "state-inventory::%s" % nme, REL,
-                "state %s exists only in %s" % (nme, "the standard's table" if nme in ref_names else "html5lib"))
+        # a method of that name that the extractor does not recognise as a state is an unrecognised shape, not a missing state
+        unrecognised = nme in ref_names and nme not in impl_names and (nme + "State") in tm.cls.methods
+        r.idiom("C02.2", nme in ref_names and nme in impl_names, "state-inventory::%s" % nme, REL,
+                "state method %sState is not in a recognised shape" % nme,
+                wrong=[(not unrecognised, "state %s exists only in %s" % (nme, "the standard's table" if nme in ref_names else "html5lib"))])
 
     # ---- C02.2
     disagreements = 0
@@ -495,6 +498,7 @@ def emission(ctx, tm):
             wrong=[(not lowers, None)])
     # duplicate attributes: dict from pairs + update from the reversed list == first wins
     first_wins = False
+    wrong_update = False
     shape = "unrecognised"
     assigns = {norm(n.targets[0]): n.value for n in ast.walk(f.node) if isinstance(n, ast.Assign) and len(n.targets) == 1}
     raw = next((k for k, v in assigns.items() if norm(v) == "token['data']"), None)
@@ -502,17 +506,21 @@ def emission(ctx, tm):
     if raw and data:
         shape = "dict-from-pairs (last wins)"
         for n in ast.walk(f.node):
-            if isinstance(n, ast.Call) and norm(n.func) == "%s.update" % data and n.args and norm(n.args[0]) == "%s[::-1]" % raw:
+            if isinstance(n, ast.Call) and norm(n.func) == "%s.update" % data and n.args and \
+                    norm(n.args[0]) in ("%s[::-1]" % raw, "reversed(%s)" % raw, "list(reversed(%s))" % raw):
                 shape = "dict-from-pairs + update(reversed) (first wins)"
                 first_wins = True
             elif isinstance(n, ast.Call) and norm(n.func) == "%s.update" % data:
                 shape = "dict-from-pairs + update(%s)" % norm(n.args[0])
+                wrong_update = norm(n.args[0]) == raw
         stored = any(isinstance(n, ast.Assign) and norm(n.targets[0]) == "token['data']" and norm(n.value) == data for n in ast.walk(f.node))
         first_wins = first_wins and stored
     else:
         raise AnalysisError("emitCurrentToken: attribute-list conversion idiom not recognised")
-    r.check("C02.6", first_wins, "duplicate-attributes-first-wins", f.where,
-            "duplicate attributes are resolved by `%s`; the standard keeps the first occurrence" % shape, detail={"shape": shape})
+    r.idiom("C02.6", first_wins, "duplicate-attributes-first-wins", f.where,
+            "duplicate-attribute resolution `%s` not recognised" % shape,
+            wrong=[(shape == "dict-from-pairs (last wins)" or wrong_update,
+                    "duplicate attributes are resolved by `%s`; the standard keeps the first occurrence" % shape)], detail={"shape": shape})
     ctor = data and norm(assigns[data].func)
     amap = None
     for st in f.module.tree.body:
